@@ -4,6 +4,8 @@ import Demeter.Actuator
 import Demeter.Actuator.Causal
 import Demeter.Actuator.Hooks
 import Demeter.Actuator.Rerun
+import Demeter.Actuator.Finalize
+import Demeter.Actuator.Strict
 namespace Demeter.Drv
 open Demeter Demeter.Core Lean
 
@@ -162,7 +164,8 @@ def tblU (j : Json) (k : String) : Except String (Nat → Nat → List String) :
 
 def parseCfg (j : Json) : Except String Cfg := do
   let ms ← jArr j "markets"
-  let markets ← ms.toList.mapM fun m => do pure (⟨← jIntArr m "idx", ← jBool m "open", (match jOpt m "sparse" with | some (.bool b) => b | _ => false)⟩ : MarketCfg)
+  let markets ← ms.toList.mapM fun m => do pure (⟨← jIntArr m "idx", ← jBool m "open", (match jOpt m "sparse" with | some (.bool b) => b | _ => false),
+                                                   (match jOpt m "strict" with | some (.bool b) => b | _ => false)⟩ : MarketCfg)
   pure ⟨markets, ← jIntArr j "prices", ← jInt j "delta", ← jBool j "resample"⟩
 
 def runH : JHandler := fun j => do
@@ -278,6 +281,39 @@ def resultJ (made : List Json) (cfg : Cfg) (r : RunResult) : Json :=
     ("bars", .arr ((barIndex cfg).map iJ).toArray),
     ("err", errJ r.err)]
 
+/-- an outcome of an operation issued by `finalize()` itself: the hook is printed as "finalize" (see `FinTail.own`) -/
+def evJFin : Ev → Json
+  | .opOk ts _ m tag => .arr #["ok", iJ ts, "finalize", nJ m, .str tag]
+  | .opRej ts _ m tag c => .arr #["rej", iJ ts, "finalize", nJ m, .str tag, .bool c]
+  | .opFree ts _ m tag ok => .arr #["free", iJ ts, "finalize", nJ m, .str tag, .bool ok]
+  | e => evJ e
+
+/-- `"fin": [ops]`, `"fin_notify": [[tag, ops], …]`, `"fin_fuel"` of a script: what `finalize()` does (`FinScript`) -/
+def parseFin (scj : Json) : Except String (Option FinScript) := do
+  match jOpt scj "fin" with
+  | none => pure none
+  | some v =>
+    let ops ← opsOf v
+    let l ← match jOpt scj "fin_notify" with
+      | some (.arr a) => a.toList.mapM fun v => match v with
+        | .arr #[.str tag, o] => do pure (tag, ← opsOf o)
+        | _ => throw "fin_notify: expected [tag, ops]"
+      | _ => pure []
+    let fuel ← match jOpt scj "fin_fuel" with | some v => natOf v | none => pure 0
+    pure (some { ops := ops, notify := fun t => (l.lookup t).getD [], fuel := fuel })
+
+/-- the answer for a run with what follows `finalize()`: trace = loop ++ tail, `actions` = `Actuator.actions` after the run, `undelivered` =
+    what is left in `_currents.actions` -/
+def fullJ (made : List Json) (cfg : Cfg) (r : FullRun) : Json :=
+  let base := resultJ made cfg r.loop
+  match r.tail with
+  | none => base
+  | some t =>
+    ((base.setObjVal! "trace" (.arr ((r.loop.trace.map evJ) ++ (t.own.map evJFin) ++ (t.deliveries.map evJ)).toArray)).setObjVal!
+      "actions" (.arr (r.actions.map fun a => Json.arr #[.str a.tag, iJ a.stamp, nJ a.m]).toArray)).setObjVal!
+      "undelivered" (.arr (r.undelivered.map fun a => Json.arr #[.str a.tag, iJ a.stamp, nJ a.m]).toArray)
+      |>.setObjVal! "err" (if t.ended then errJ r.loop.err else .str "diverges")
+
 /-- `Actuator.run` for any scripted strategy (`runG`); with `"then": <script>` the same Actuator and strategy object are run a second time
     with that script (`trigsAfterRunG` → `actuatorRunG`) and the second result is answered under `"second"` -/
 def runGH : JHandler := fun j => do
@@ -287,14 +323,21 @@ def runGH : JHandler := fun j => do
   let (made, ok) := buildTrigs specs
   let trigs := install (ok.map fun (kw, _, k) => (kw, k))
   let g ← parseGScript ((jOpt j "script").getD (Json.mkObj []))
-  let r := actuatorRunG cfg trigs g
-  let first := resultJ made cfg r
+  let fin ← parseFin ((jOpt j "script").getD (Json.mkObj []))
+  let answer (trigs : List Trig) (g : GScript) (fin : Option FinScript) : Json :=
+    -- a strict market without a row ends the run before `finalize()`; otherwise `runStrict` is `runG`
+    let rs := if cfg.markets.any (·.strict) then actuatorRunStrict cfg trigs g else actuatorRunG cfg trigs g
+    match fin with
+    | none => resultJ made cfg rs
+    | some f => if rs.err.isSome then resultJ made cfg rs else fullJ made cfg (actuatorRunFull cfg trigs g f)
+  let first := answer trigs g fin
   match jOpt j "then" with
   | none => pure first
   | some scj2 =>
     let g2 ← parseGScript scj2
-    let r2 := actuatorRunG cfg (trigsAfterRunG cfg trigs g) g2
-    pure (first.setObjVal! "second" (resultJ made cfg r2))
+    let fin2 ← parseFin scj2
+    let second := answer (trigsAfterRunG cfg trigs g) g2 fin2
+    pure (first.setObjVal! "second" second)
 
 /-- `Actuator.run` in the code's order (`runG2`: `initialize()`, then the reset of everything installed) and the second run of the same strategy
     object (`rerun2`: the list handed back, `initialize()` installing the same objects in the state the first run left them in); under
@@ -353,7 +396,14 @@ def viewsH : JHandler := fun j => do
 end CoreDrv
 
 def coreHandlers : List (String × Handler) := []
+/-- which market classes raise `KeyError` from `set_market_status` on a bar without a row, as read from the source -/
+def strictFlagsH : JHandler := fun _ => do
+  pure <| Json.mkObj [("UniLpMarket", .bool MarketClass.uni.strict), ("AaveV3Market", .bool MarketClass.aave.strict),
+    ("SqueethMarket", .bool MarketClass.squeeth.strict), ("GmxMarket", .bool MarketClass.gmx.strict),
+    ("GmxV2Market", .bool MarketClass.gmxV2.strict), ("DeribitOptionMarket", .bool MarketClass.deribit.strict)]
+
 def coreJHandlers : List (String × JHandler) := [
+  ("strict_flags", strictFlagsH),
   ("trig_run", CoreDrv.trigRunH),
   ("run", CoreDrv.runH),
   ("run_g", CoreDrv.runGH),
